@@ -34,12 +34,14 @@ def demo(wt, script):
     return r.returncode, (r.stdout + r.stderr).strip().splitlines()[-3:]
 
 
-def suite(wt):
+def suite(wt, only=()):
     junit = f"{wt}/junit.xml"
     subprocess.run([PY, "-m", "pytest", "-ra", "-q", "-p", "no:cacheprovider", "--timeout=900",
-                    "--continue-on-collection-errors", f"--junitxml={junit}"], cwd=wt, capture_output=True, text=True,
+                    "--continue-on-collection-errors", f"--junitxml={junit}", *only], cwd=wt, capture_output=True, text=True,
                    env={**os.environ, "PYTHONPATH": wt})
     stable = set(json.load(open("/root/.vp/BASELINE.json"))["stable_pass"])
+    if only:
+        stable = {t for t in stable if any(o.replace("/", ".").removesuffix(".py") in t for o in only)}
     passed = set()
     for tc in ET.parse(junit).getroot().iter("testcase"):
         if not any(c.tag in ("failure", "error", "skipped") for c in tc):
@@ -77,7 +79,17 @@ def confirm(d):
         rc1, out1 = demo(wt, f"{d}/demo.py")
         res["demo_patched"] = [rc1, out1]
         missing = suite(wt)
-        if missing:   # test_server flakes under load: once more
+        if missing and all(".test_server::" in m for m in missing):
+            # the end-to-end tests start a real server on a port chosen from a fixed seed: they collide with any other
+            # suite running on the machine.  Re-run that module alone, one at a time (machine-wide lock).
+            import fcntl
+            with open("/tmp/seedtest-server.lock", "w") as lk:
+                fcntl.flock(lk, fcntl.LOCK_EX)
+                for _ in range(3):
+                    missing = [m for m in suite(wt, ["asimap/test/test_server.py"]) if ".test_server::" in m]
+                    if not missing:
+                        break
+        elif missing:
             missing = suite(wt)
         res["suite_regressions"] = missing
         res["confirmed"] = (rc0 == 0 and rc1 != 0 and not missing and not res["touches_tests"])
